@@ -182,7 +182,7 @@ func WorkerMain(id, tier string, seed int64, deadlineUnix int64) {
 		fmt.Fprintf(os.Stderr, "unknown check %s\n", id)
 		os.Exit(2)
 	}
-	units := ck.Units(tier, seed)
+	units := unitsFor(ck, tier, seed)
 	in := bufio.NewReader(os.Stdin)
 	out := bufio.NewWriter(os.Stdout)
 	deadline := time.Unix(deadlineUnix, 0)
@@ -342,7 +342,7 @@ func ParentMain(id, tier string, seed int64, self string, instrInfo string) int 
 		}
 	}
 	deadline := start.Add(budget)
-	units := ck.Units(tier, seed)
+	units := unitsFor(ck, tier, seed)
 	nw := ck.Workers
 	if nw == 0 {
 		nw = runtime.NumCPU()
@@ -619,7 +619,7 @@ func writeReplay(id string, v Violation) string {
 // DebugUnit runs the first unit whose name contains sub in this process and prints its result.
 func DebugUnit(id, sub, tier string, seed int64) {
 	ck := Lookup(id)
-	for i, u := range ck.Units(tier, seed) {
+	for i, u := range unitsFor(ck, tier, seed) {
 		if strings.Contains(u.Name, sub) {
 			res := RunUnit(u, i, tier, seed, time.Now().Add(10*time.Minute))
 			b, _ := json.MarshalIndent(res, "", " ")
@@ -648,7 +648,7 @@ func crashKind(stderr string) string {
 // UnitJSONMain runs one unit by index and prints its result as JSON (used to confirm violations).
 func UnitJSONMain(id, tier string, seed int64, idx int, deadlineUnix int64) {
 	ck := Lookup(id)
-	units := ck.Units(tier, seed)
+	units := unitsFor(ck, tier, seed)
 	if idx < 0 || idx >= len(units) {
 		os.Exit(2)
 	}
@@ -703,4 +703,19 @@ func confirmViolation(self, id, tier string, seed int64, units []Unit, v Violati
 		}
 	}
 	return true, "reproduced in 2 of 2 confirmation runs in fresh processes"
+}
+
+// unitsFor: the unit list of a tier. The thorough tier starts with every unit of the quick tier (its
+// bounds are completed first, so that a time cap can only cut the deeper exploration and "fully covered
+// below the cap" always includes the quick bounds), followed by the thorough units.
+func unitsFor(ck *Check, tier string, seed int64) []Unit {
+	if tier != "thorough" {
+		return ck.Units(tier, seed)
+	}
+	var out []Unit
+	for _, u := range ck.Units("quick", seed) {
+		u.Name += " [quick bounds]"
+		out = append(out, u)
+	}
+	return append(out, ck.Units("thorough", seed)...)
 }
